@@ -132,6 +132,48 @@ def history_independence(ctx):
               if by.get((a, repr(sorted(dict(ignore_repetition=rep, ignore_iterable_order=order).items())))) != by.get((b, repr(sorted(dict(ignore_repetition=rep, ignore_iterable_order=order).items()))))))
 
 
+def cyclic_and_deep(ctx):
+    """values that contain themselves (the back-reference in every position among the other entries) and values under more than a hundred
+    containers: the digest does not depend on insertion order / item order there either (implementation only)"""
+    from deepdiff import DeepHash
+    def cyc(order, top=None):
+        d = {}
+        for k in order:
+            if k == 'self':
+                d['self'] = d if top is None else top
+            elif k == 'sub':
+                d['sub'] = cyc(['x', 'self', 'y'], top=d)
+            else:
+                d[k] = k.upper()
+        return d
+    def wrap(v, n):
+        for i in range(n):
+            v = [v] if i % 2 else {'k': v}
+        return v
+    for mname, (rep, order) in HS.MODES.items():
+        kw = dict(ignore_repetition=rep, ignore_iterable_order=order)
+        groups = [[cyc(['a', 'self', 'b']), cyc(['b', 'a', 'self']), cyc(['self', 'a', 'b'])],
+                  [cyc(['a', 'sub', 'b']), cyc(['sub', 'b', 'a'])],
+                  [wrap({'p': 1, 'q': 'z', 'r': None}, 120), wrap({'r': None, 'q': 'z', 'p': 1}, 120)],
+                  [wrap({'p': 1, 'q': {'u': 1, 'v': 2}}, 105), wrap({'q': {'v': 2, 'u': 1}, 'p': 1}, 105)]]
+        if order:
+            groups.append([wrap([3, 1, 2, 'a'], 120), wrap(['a', 2, 3, 1], 120)])
+            groups.append([wrap((1, [2, 3]), 110), wrap(([3, 2], 1), 110)])
+        for grp in groups:
+            ctx.evaluations += 1
+            hs = []
+            for v in grp:
+                try:
+                    hs.append(DeepHash(v, **kw)[v])
+                except Exception as e:
+                    hs.append('raised ' + type(e).__name__)
+            ctx.count('cyclic_and_deep')
+            ctx.nontriv((mname, len(grp), repr(grp[0])[:40]))
+            if len(set(hs)) > 1:
+                ctx.violate({'value': repr(grp[0])[:200], 'mode': mname, 'scenario': 'self-containing / deeply nested value listed in another order'},
+                            'the same content in another insertion / item order hashes differently: %r' % [h[:12] for h in hs])
+
+
 def run(ctx, impl_only=False):
     from deepdiff import DeepHash
     findings = {f['id']: f for f in core.load_findings(ID) if f.get('status') == 'open'}
@@ -251,6 +293,7 @@ def run(ctx, impl_only=False):
             ctx.violate({'value': repr(lst), 'mode': mname, 'scenario': 'shared table, container edited in place between calls'},
                         'a shared hashes table changes the hash (stale entry reused)')
     history_independence(ctx)
+    cyclic_and_deep(ctx)
     # ---- PYTHONHASHSEED
     seeds = list(range(1, 17)) if ctx.thorough() else [1, 2, 4]
     sv = [(v, dict(ignore_repetition=rep, ignore_iterable_order=order)) for v in vals[: (200 if ctx.thorough() else 60)]
